@@ -1,7 +1,9 @@
 //! C05, constructors: run every call of the specification's grid (TLC "CTOR" lines) under
 //! catch_unwind and log its outcome: "Ok", the error kind, or "Panic".
 use crate::exec::tlc_payload;
-use crate::hashers::{DynBH, LogCb};
+use crate::hashers::{DynBH, LogCb, TabKH};
+use std::hash::BuildHasher;
+use std::rc::Rc;
 use crate::sut::{s, u};
 use caches::lru::CacheError;
 use caches::*;
@@ -60,6 +62,66 @@ fn msg<T, E: std::fmt::Debug>(r: Result<T, E>) -> String {
 fn items(n: u64) -> Vec<(u64, u64)> {
     (1..=n).map(|i| (i, i * 10)).collect()
 }
+thread_local! { static SHAPE: std::cell::RefCell<Vec<i64>> = const { std::cell::RefCell::new(Vec::new()) }; }
+/// what a successful construction carries (Ctor.tla, Shape): configured capacities, quotas, sample sizes
+fn shape(v: Vec<usize>) {
+    SHAPE.with(|s| *s.borrow_mut() = v.into_iter().map(|x| x.min(i32::MAX as usize) as i64).collect());
+}
+fn ce_raw<E: OnEvictCallback, S: BuildHasher>(r: Result<RawLRU<u64, u64, E, S>, CacheError>) -> String {
+    if let Ok(c) = &r {
+        shape(vec![c.cap()]);
+    }
+    ce(r)
+}
+fn ce_slru<FH: BuildHasher, RH: BuildHasher>(r: Result<SegmentedCache<u64, u64, FH, RH>, CacheError>) -> String {
+    if let Ok(c) = &r {
+        let (pb, pt) = c.verif_parts();
+        shape(vec![pb.cap(), pt.cap(), c.cap()]);
+    }
+    ce(r)
+}
+fn ce_2q<RH: BuildHasher, FH: BuildHasher, GH: BuildHasher>(r: Result<TwoQueueCache<u64, u64, RH, FH, GH>, CacheError>) -> String {
+    if let Ok(c) = &r {
+        let (rc, fq, gh) = c.verif_parts();
+        shape(vec![c.cap(), c.verif_recent_quota(), gh.cap(), rc.cap(), fq.cap()]);
+    }
+    ce(r)
+}
+fn ce_arc<RH: BuildHasher, REH: BuildHasher, FH: BuildHasher, FEH: BuildHasher>(
+    r: Result<AdaptiveCache<u64, u64, RH, REH, FH, FEH>, CacheError>,
+) -> String {
+    if let Ok(c) = &r {
+        let (rc, fq, re, fe) = c.verif_parts();
+        shape(vec![c.cap(), rc.cap(), fq.cap(), re.cap(), fe.cap()]);
+    }
+    ce(r)
+}
+fn msg_w<KH: lfu::KeyHasher<u64>, FH: BuildHasher, RH: BuildHasher, WH: BuildHasher, E: std::fmt::Debug>(
+    r: Result<WTinyLFUCache<u64, u64, KH, FH, RH, WH>, E>,
+    constrained: bool,
+) -> String {
+    if let (Ok(c), true) = (&r, constrained) {
+        let (w, m, t) = c.verif_parts();
+        let (pb, pt) = m.verif_parts();
+        shape(vec![w.cap(), pb.cap(), pt.cap(), t.verif_w().1, c.cap()]);
+    }
+    msg(r)
+}
+fn sampled_shape<KH: lfu::KeyHasher<u64>, S: BuildHasher>(mut l: lfu::SampledLFU<u64, KH, S>) -> String {
+    let room = l.room_left(0);
+    for k in 1..=8u64 {
+        l.increment(&k, 1);
+    }
+    let n = l.fill_sample(vec![]).len();
+    shape(vec![room.max(0) as usize, n]);
+    l.increment(&1, 1);
+    let _ = l.room_left(0);
+    "Ok".into()
+}
+const PERMS: [[usize; 3]; 6] = [[0, 1, 2], [0, 2, 1], [1, 0, 2], [1, 2, 0], [2, 0, 1], [2, 1, 0]];
+fn tab() -> TabKH {
+    TabKH { table: Rc::new(vec![]) }
+}
 thread_local! { static ORDER: std::cell::RefCell<(Vec<u64>, i64)> = const { std::cell::RefCell::new((Vec::new(), -1)) }; }
 /// record the order the cache was built in, then use it a little so that a broken construction shows
 fn poke(mut c: RawLRU<u64, u64>, n: u64) -> String {
@@ -76,26 +138,26 @@ fn poke(mut c: RawLRU<u64, u64>, n: u64) -> String {
 fn run_one(c: &Value) -> String {
     let n = u(c, "n") as usize;
     match s(c, "c") {
-        "raw_new" => ce(RawLRU::<u64, u64>::new(n)),
-        "raw_with_hasher" => ce(RawLRU::<u64, u64, DefaultEvictCallback, DynBH>::with_hasher(n, DynBH::of("fnv"))),
-        "raw_with_cb" => ce(RawLRU::<u64, u64, LogCb>::with_on_evict_cb(n, LogCb)),
-        "raw_with_cb_and_hasher" => ce(RawLRU::<u64, u64, LogCb, DynBH>::with_on_evict_cb_and_hasher(n, LogCb, DynBH::of("zero"))),
-        "arc_new" => ce(AdaptiveCache::<u64, u64>::new(n)),
-        "arc_builder" => ce(AdaptiveCacheBuilder::new(1).set_size(n).set_recent_hasher(DynBH::of("ident")).finalize::<u64, u64>()),
-        "slru_new" => ce(SegmentedCache::<u64, u64>::new(u(c, "a") as usize, u(c, "b") as usize)),
-        "slru_builder" => ce(SegmentedCacheBuilder::new(u(c, "a") as usize, u(c, "b") as usize).finalize::<u64, u64>()),
-        "slru_builder_setters" => ce(SegmentedCache::<u64, u64, DynBH, DynBH>::from_builder(
+        "raw_new" => ce_raw(RawLRU::<u64, u64>::new(n)),
+        "raw_with_hasher" => ce_raw(RawLRU::<u64, u64, DefaultEvictCallback, DynBH>::with_hasher(n, DynBH::of("fnv"))),
+        "raw_with_cb" => ce_raw(RawLRU::<u64, u64, LogCb>::with_on_evict_cb(n, LogCb)),
+        "raw_with_cb_and_hasher" => ce_raw(RawLRU::<u64, u64, LogCb, DynBH>::with_on_evict_cb_and_hasher(n, LogCb, DynBH::of("zero"))),
+        "arc_new" => ce_arc(AdaptiveCache::<u64, u64>::new(n)),
+        "arc_builder" => ce_arc(AdaptiveCacheBuilder::new(1).set_size(n).set_recent_hasher(DynBH::of("ident")).finalize::<u64, u64>()),
+        "slru_new" => ce_slru(SegmentedCache::<u64, u64>::new(u(c, "a") as usize, u(c, "b") as usize)),
+        "slru_builder" => ce_slru(SegmentedCacheBuilder::new(u(c, "a") as usize, u(c, "b") as usize).finalize::<u64, u64>()),
+        "slru_builder_setters" => ce_slru(SegmentedCache::<u64, u64, DynBH, DynBH>::from_builder(
             SegmentedCacheBuilder::new(7, 7)
                 .set_protected_hasher(DynBH::of("fnv"))
                 .set_probationary_hasher(DynBH::of("zero"))
                 .set_protected_size(u(c, "b") as usize)
                 .set_probationary_size(u(c, "a") as usize),
         )),
-        "2q_new" => ce(TwoQueueCache::<u64, u64>::new(n)),
-        "2q_params" => ce(TwoQueueCache::<u64, u64>::with_2q_parameters(n, f(s(c, "rr")), f(s(c, "gr")))),
-        "2q_with_recent_ratio" => ce(TwoQueueCache::<u64, u64>::with_recent_ratio(n, f(s(c, "rr")))),
-        "2q_with_ghost_ratio" => ce(TwoQueueCache::<u64, u64>::with_ghost_ratio(n, f(s(c, "gr")))),
-        "2q_builder" => ce(TwoQueueCacheBuilder::new(n).set_recent_ratio(f(s(c, "rr"))).set_ghost_ratio(f(s(c, "gr"))).finalize::<u64, u64>()),
+        "2q_new" => ce_2q(TwoQueueCache::<u64, u64>::new(n)),
+        "2q_params" => ce_2q(TwoQueueCache::<u64, u64>::with_2q_parameters(n, f(s(c, "rr")), f(s(c, "gr")))),
+        "2q_with_recent_ratio" => ce_2q(TwoQueueCache::<u64, u64>::with_recent_ratio(n, f(s(c, "rr")))),
+        "2q_with_ghost_ratio" => ce_2q(TwoQueueCache::<u64, u64>::with_ghost_ratio(n, f(s(c, "gr")))),
+        "2q_builder" => ce_2q(TwoQueueCacheBuilder::new(n).set_recent_ratio(f(s(c, "rr"))).set_ghost_ratio(f(s(c, "gr"))).finalize::<u64, u64>()),
         "2q_builder_perm" => {
             // the three setters applied in the order given by `perm`, each preceded by a decoy value that must not stick
             let (rr, gr) = (f(s(c, "rr")), f(s(c, "gr")));
@@ -108,7 +170,7 @@ fn run_one(c: &Value) -> String {
                     _ => b.set_ghost_ratio(0.25).set_ghost_ratio(gr),
                 };
             }
-            ce(b.finalize::<u64, u64>())
+            ce_2q(b.finalize::<u64, u64>())
         }
         "w_builder_perm" => {
             let order: [usize; 3] = [[0, 1, 2], [0, 2, 1], [1, 0, 2], [1, 2, 0], [2, 0, 1], [2, 1, 0]][u(c, "perm") as usize];
@@ -120,10 +182,10 @@ fn run_one(c: &Value) -> String {
                     _ => b.set_false_positive_ratio(0.5).set_false_positive_ratio(f(s(c, "fp"))),
                 };
             }
-            msg(b.finalize::<u64>())
+            msg_w(b.finalize::<u64>(), true)
         }
-        "w_with_sizes" => msg(WTinyLFUCache::<u64, u64>::with_sizes(u(c, "w") as usize, u(c, "b") as usize, u(c, "a") as usize, u(c, "s") as usize)),
-        "w_builder" => msg(
+        "w_with_sizes" => msg_w(WTinyLFUCache::<u64, u64>::with_sizes(u(c, "w") as usize, u(c, "b") as usize, u(c, "a") as usize, u(c, "s") as usize), true),
+        "w_builder" => msg_w(
             WTinyLFUCache::<u64, u64>::builder()
                 .set_window_cache_size(u(c, "w") as usize)
                 .set_protected_cache_size(u(c, "b") as usize)
@@ -131,8 +193,9 @@ fn run_one(c: &Value) -> String {
                 .set_samples(u(c, "s") as usize)
                 .set_false_positive_ratio(f(s(c, "fp")))
                 .finalize::<u64>(),
+            true,
         ),
-        "w_new" => msg(WTinyLFUCache::<u64, u64>::new(n, u(c, "s") as usize)),
+        "w_new" => msg_w(WTinyLFUCache::<u64, u64>::new(n, u(c, "s") as usize), false),
         "tinylfu_new" => {
             let r = lfu::TinyLFU::<u64>::new(n, u(c, "s") as usize, f(s(c, "fp")));
             match r {
@@ -141,6 +204,7 @@ fn run_one(c: &Value) -> String {
                     t.increment(&1);
                     t.increment(&1);
                     let _ = t.estimate(&1) + t.estimate(&2);
+                    shape(vec![t.verif_w().1]);
                     "Ok".into()
                 }
                 e => msg(e),
@@ -167,18 +231,93 @@ fn run_one(c: &Value) -> String {
         "raw_from_hashmap" => poke(RawLRU::from(items(n as u64).into_iter().collect::<HashMap<_, _>>()), n as u64),
         #[cfg(feature = "nostd")]
         "raw_from_hashset" | "raw_from_hashmap" => "Ok".into(), // hashbrown's map types are not a dependency of the harness
-        "sampled_new" => {
-            let mut l = lfu::SampledLFU::<u64>::new(n as i64);
-            l.increment(&1, 1);
-            let _ = l.room_left(0);
-            "Ok".into()
+        "sampled_new" => sampled_shape(lfu::SampledLFU::<u64>::new(n as i64)),
+        "sampled_with_samples" => sampled_shape(lfu::SampledLFU::<u64>::with_samples(n as i64, u(c, "s") as usize)),
+        "sampled_with_hasher" => sampled_shape(lfu::SampledLFU::<u64, lfu::DefaultKeyHasher<u64>, DynBH>::with_hasher(n as i64, DynBH::of("fnv"))),
+        "sampled_with_samples_and_hasher" => sampled_shape(lfu::SampledLFU::<u64, lfu::DefaultKeyHasher<u64>, DynBH>::with_samples_and_hasher(
+            n as i64,
+            u(c, "s") as usize,
+            DynBH::of("zero"),
+        )),
+        "sampled_with_key_hasher" => sampled_shape(lfu::SampledLFU::<u64, TabKH>::with_key_hasher(n as i64, tab())),
+        "sampled_with_samples_and_key_hasher" => sampled_shape(lfu::SampledLFU::<u64, TabKH>::with_samples_and_key_hasher(n as i64, u(c, "s") as usize, tab())),
+        "sampled_with_samples_and_key_hasher_and_hasher" => sampled_shape(lfu::SampledLFU::<u64, TabKH, DynBH>::with_samples_and_key_hasher_and_hasher(
+            n as i64,
+            u(c, "s") as usize,
+            tab(),
+            DynBH::of("ident"),
+        )),
+        // ---- builders whose hasher setters (which rebuild the builder at a new type) are interleaved with the value setters
+        "arc_builder_perm" => {
+            let mut b = AdaptiveCacheBuilder::default()
+                .set_recent_hasher(DynBH::of("std"))
+                .set_frequent_hasher(DynBH::of("std"))
+                .set_recent_evict_hasher(DynBH::of("std"))
+                .set_frequent_evict_hasher(DynBH::of("std"));
+            for step in PERMS[u(c, "perm") as usize] {
+                b = match step {
+                    0 => b.set_size(77).set_size(n),
+                    1 => b.set_recent_hasher(DynBH::of("fnv")).set_frequent_evict_hasher(DynBH::of("zero")),
+                    _ => b.set_frequent_hasher(DynBH::of("ident")).set_recent_evict_hasher(DynBH::of("fnv")),
+                };
+            }
+            ce_arc(b.finalize::<u64, u64>())
         }
-        "sampled_with_samples" => {
-            let mut l = lfu::SampledLFU::<u64>::with_samples(n as i64, u(c, "s") as usize);
-            l.increment(&1, 1);
-            let _ = l.fill_sample(vec![]);
-            "Ok".into()
+        "arc_from_builder" => ce_arc(AdaptiveCache::<u64, u64>::from_builder(AdaptiveCacheBuilder::new(n))),
+        "arc_builder_default" => ce_arc(AdaptiveCacheBuilder::default().finalize::<u64, u64>()),
+        "slru_builder_perm" => {
+            let mut b = SegmentedCacheBuilder::default().set_protected_hasher(DynBH::of("std")).set_probationary_hasher(DynBH::of("std"));
+            for step in PERMS[u(c, "perm") as usize] {
+                b = match step {
+                    0 => b.set_probationary_size(55).set_probationary_size(u(c, "a") as usize),
+                    1 => b.set_protected_size(66).set_protected_size(u(c, "b") as usize),
+                    _ => b.set_protected_hasher(DynBH::of("fnv")).set_probationary_hasher(DynBH::of("zero")),
+                };
+            }
+            ce_slru(b.finalize::<u64, u64>())
         }
+        "slru_builder_default" => ce_slru(SegmentedCacheBuilder::default().finalize::<u64, u64>()),
+        "2q_builder_hashers" => {
+            let (rr, gr) = (f(s(c, "rr")), f(s(c, "gr")));
+            let mut b = TwoQueueCacheBuilder::default()
+                .set_recent_hasher(DynBH::of("std"))
+                .set_frequent_hasher(DynBH::of("std"))
+                .set_ghost_hasher(DynBH::of("std"));
+            for step in PERMS[u(c, "perm") as usize] {
+                b = match step {
+                    0 => b.set_size(n).set_recent_ratio(rr),
+                    1 => b.set_recent_hasher(DynBH::of("fnv")).set_frequent_hasher(DynBH::of("zero")).set_ghost_hasher(DynBH::of("ident")),
+                    _ => b.set_ghost_ratio(gr),
+                };
+            }
+            ce_2q(b.finalize::<u64, u64>())
+        }
+        "2q_from_builder" => ce_2q(TwoQueueCache::<u64, u64>::from_builder(
+            TwoQueueCacheBuilder::new(n).set_recent_ratio(f(s(c, "rr"))).set_ghost_ratio(f(s(c, "gr"))),
+        )),
+        "2q_builder_default" => ce_2q(TwoQueueCacheBuilder::default().finalize::<u64, u64>()),
+        "w_builder_hashers" => {
+            let mut b = WTinyLFUCacheBuilder::<u64, TabKH, DynBH, DynBH, DynBH>::with_hashers(tab(), DynBH::of("std"), DynBH::of("std"), DynBH::of("std"));
+            for step in PERMS[u(c, "perm") as usize] {
+                b = match step {
+                    0 => b.set_window_cache_size(u(c, "w") as usize).set_protected_cache_size(u(c, "b") as usize).set_probationary_cache_size(u(c, "a") as usize),
+                    1 => b
+                        .set_window_hasher(DynBH::of("fnv"))
+                        .set_protected_hasher(DynBH::of("zero"))
+                        .set_key_hasher(tab())
+                        .set_probationary_hasher(DynBH::of("ident")),
+                    _ => b.set_samples(u(c, "s") as usize).set_false_positive_ratio(f(s(c, "fp"))),
+                };
+            }
+            msg_w(b.finalize::<u64>(), true)
+        }
+        "w_from_builder" => msg_w(
+            WTinyLFUCache::<u64, u64>::from_builder(
+                WTinyLFUCacheBuilder::new(u(c, "w") as usize, u(c, "b") as usize, u(c, "a") as usize, u(c, "s") as usize)
+                    .set_false_positive_ratio(f(s(c, "fp"))),
+            ),
+            true,
+        ),
         o => panic!("harness: unknown constructor {o}"),
     }
 }
@@ -196,6 +335,7 @@ pub fn run(a: &crate::Args) -> Value {
         let line = line.unwrap();
         let Some(c) = tlc_payload(&line, "CTOR") else { continue };
         ORDER.with(|o| *o.borrow_mut() = (vec![], -1));
+        SHAPE.with(|s| s.borrow_mut().clear());
         let outcome = match catch_unwind(AssertUnwindSafe(|| run_one(&c))) {
             Ok(o) => o,
             Err(e) => {
@@ -211,7 +351,8 @@ pub fn run(a: &crate::Args) -> Value {
         *by.entry(outcome.clone()).or_insert(0) += 1;
         n += 1;
         let (order, cap) = ORDER.with(|o| o.borrow().clone());
-        writeln!(out, "{}", json!({"call": c, "outcome": outcome, "order": order, "cap": cap})).unwrap();
+        let shape = SHAPE.with(|s| s.borrow().clone());
+        writeln!(out, "{}", json!({"call": c, "outcome": outcome, "order": order, "cap": cap, "shape": shape})).unwrap();
     }
     out.flush().unwrap();
     json!({"events": n, "tests": n, "panics": panics, "nontrivial": n, "by_kind": by})
